@@ -349,6 +349,15 @@ func propC12(c *Ctx) {
 			runC12Case(c, kk, someOpts, append([]rune(nil), s...))
 		})
 	}
+	// line-break characters handed to other states by the user (CR a symbol, LF a word character, …): positions stay those of
+	// the forward scan
+	for _, ops := range []string{"D:13:13:s", "D:10:10:s", "D:13:13:w~W:13:13:1", "D:10:10:w~W:10:10:1", "D:13:13:s~D:10:10:s", "D:13:13:0", "D:10:13:q"} {
+		for _, base := range []string{"g", "e"} {
+			for _, in := range []string{"a\r\nb c\r\n\r\nd", "\r\na", "a\n\rb\rc\nd", "x\r", "\r\r\n\n", "ab\r\n12 'q'\r\n/*c*/ z"} {
+				runC12Case(c, "K"+base+"|"+ops, []int{0, 127, 2 | 4, 16}, []rune(in))
+			}
+		}
+	}
 	for _, k := range kinds {
 		for _, first := range []rune{0xfeff, 0xfffe, 0, 0x2028, 0x85, 0xa0, 0x200b} {
 			for _, rest := range []string{"", "a", "a b\nc", " a", "\na", "12 + 3", "{{x}}", "a,b\r\nc"} {
